@@ -75,6 +75,10 @@ pub enum Kind {
     Reject,
     Noop,
     FailPreSave,
+    /// create the volatile entity (only one creation may succeed while it exists)
+    Create,
+    /// drop the volatile entity
+    Drop,
 }
 
 #[derive(Clone, Deserialize, Eq, PartialEq, Serialize)]
@@ -192,6 +196,7 @@ impl Aggregate for Ledger {
             Kind::Reject => Err(LError::Rejected(c.thread, c.seq)),
             Kind::Noop => Ok(vec![]),
             Kind::FailPreSave => Ok(vec![LEvent::Poison { thread: c.thread, seq: c.seq }]),
+            Kind::Create | Kind::Drop => Ok(vec![]),
         }
     }
     fn pre_save_events(&self, events: &[LEvent], _context: &LCtx) -> Result<(), LError> {
@@ -231,10 +236,20 @@ pub struct Case {
     yield_seed: u64,
     /// half of the readers use a second store object over the same storage (a cache of its own)
     second_store: bool,
+    /// 0 = no volatile entity; 1 = an entity (index `entities`) that does not exist at the start and
+    /// is created by the writers; 2 = it is also dropped by them
+    #[serde(default)]
+    volatile: u8,
 }
 
-fn step(entities: u8) -> impl Strategy<Value = Step> {
-    (0..entities, prop_oneof![8 => Just(Kind::Add), 2 => Just(Kind::Add2), 3 => Just(Kind::Reject), 2 => Just(Kind::Noop), 2 => Just(Kind::FailPreSave)]).prop_map(|(entity, kind)| Step { entity, kind })
+fn step(entities: u8, volatile: u8) -> BoxedStrategy<Step> {
+    let stable = (0..entities, prop_oneof![8 => Just(Kind::Add), 2 => Just(Kind::Add2), 3 => Just(Kind::Reject), 2 => Just(Kind::Noop), 2 => Just(Kind::FailPreSave)]).prop_map(|(entity, kind)| Step { entity, kind });
+    if volatile == 0 {
+        return stable.boxed();
+    }
+    let drop_w = if volatile == 2 { 2 } else { 0 };
+    let vol = prop_oneof![6 => Just(Kind::Create), 4 => Just(Kind::Add), 1 => Just(Kind::Reject), 1 => Just(Kind::Noop), drop_w => Just(Kind::Drop)].prop_map(move |kind| Step { entity: entities, kind });
+    prop_oneof![1 => stable, 2 => vol].boxed()
 }
 
 struct Observed {
@@ -280,12 +295,16 @@ fn run_case(case: &Case) -> Result<Result<Vec<String>, (String, String, String)>
         let stop = stop.clone();
         let seen = seen.clone();
         let entities = case.entities;
+        let all = case.entities + if case.volatile > 0 { 1 } else { 0 };
         reader_handles.push(std::thread::spawn(move || {
             let mut i = 0u64;
             let mut local = Vec::new();
             while !stop.load(Ordering::Relaxed) && local.len() < 400 {
-                let e = (i % entities as u64) as u8;
-                if let Ok(a) = store.get_latest(&handle(e)) {
+                let e = (i % all as u64) as u8;
+                if e >= entities {
+                    // the volatile entity: may or may not exist
+                    let _ = store.get_latest(&handle(e));
+                } else if let Ok(a) = store.get_latest(&handle(e)) {
                     local.push((e, a.version, a.log.clone()));
                 }
                 i += 1;
@@ -306,6 +325,24 @@ fn run_case(case: &Case) -> Result<Result<Vec<String>, (String, String, String)>
             let mut res = Vec::new();
             let mut local = Vec::new();
             for (seq, s) in steps.iter().enumerate() {
+                if matches!(s.kind, Kind::Create | Kind::Drop) {
+                    let create = matches!(s.kind, Kind::Create);
+                    let r = guarded(|| {
+                        if create {
+                            store.add_with_context(SentInitCommand::new(handle(s.entity), LInitDetails, &actor), &ctx).map(|a| a.version).map_err(|e| e.to_string())
+                        } else {
+                            store.drop_aggregate(&handle(s.entity)).map(|_| 0).map_err(|e| e.to_string())
+                        }
+                    });
+                    match r {
+                        Ok(r) => res.push((s.entity, s.kind.clone(), seq as u32, r)),
+                        Err(c) => {
+                            res.push((s.entity, s.kind.clone(), seq as u32, Err(format!("CRASH {}", c.what))));
+                            break;
+                        }
+                    }
+                    continue;
+                }
                 let cmd = SentCommand::new(handle(s.entity), None, LCmd { kind: s.kind.clone(), thread: t as u8, seq: seq as u32 }, &actor);
                 let r = guarded(|| store.command_with_context(cmd, &ctx));
                 match r {
@@ -499,6 +536,91 @@ fn check(case: &Case, store: &AggregateStore<Ledger>, storage: &StorageSystem, c
             }
         }
     }
+    // the volatile entity: creation is serialised with everything else on that entity
+    if case.volatile > 0 {
+        let x = case.entities;
+        let h = handle(x);
+        let mut creates_ok = 0usize;
+        let mut drops_ok = 0usize;
+        let mut processed: BTreeMap<(u8, u32), Kind> = BTreeMap::new();
+        for (t, rs) in obs.results.iter().enumerate() {
+            for (ent, kind, seq, r) in rs {
+                if *ent != x {
+                    continue;
+                }
+                match (kind, r) {
+                    (Kind::Create, Ok(_)) => creates_ok += 1,
+                    (Kind::Drop, Ok(_)) => drops_ok += 1,
+                    (Kind::Add | Kind::Add2, Ok(_)) => {
+                        processed.insert((t as u8, *seq), kind.clone());
+                    }
+                    (Kind::Reject, Err(m)) if m.contains("rejected") => {
+                        processed.insert((t as u8, *seq), kind.clone());
+                    }
+                    _ => {}
+                }
+            }
+        }
+        classes.insert("volatile_entity".into());
+        if creates_ok > drops_ok + 1 {
+            return Err(bad("c07-created-twice", "volatile", format!("the entity e{x} was created successfully {creates_ok} times with {drops_ok} successful drops: two creations of one entity both succeeded")));
+        }
+        let exists = store.has(&h).map_err(|e| bad("c07-load", "has", e.to_string()))?;
+        if drops_ok == 0 {
+            if exists != (creates_ok == 1) {
+                return Err(bad("c07-created-twice", "existence", format!("e{x}: {creates_ok} successful creations, no drop, but exists = {exists}")));
+            }
+            if !exists && !processed.is_empty() {
+                return Err(bad("c07-command-lost", "no-entity", format!("e{x}: commands {:?} were processed although the entity was never created", processed.keys().collect::<Vec<_>>())));
+            }
+            if exists {
+                classes.insert("volatile_created".into());
+                let fin = store.get_latest(&h).map_err(|e| bad("c07-load", "final", format!("e{x} does not load: {e}")))?;
+                let hist = store
+                    .command_history(&h, CommandHistoryCriteria { rows_limit: Some(100000), ..Default::default() })
+                    .map_err(|e| bad("c07-history", "error", format!("history of e{x}: {e}")))?;
+                let mut model_log: Vec<(u8, u32)> = Vec::new();
+                let mut seen_cmds: BTreeSet<(u8, u32)> = BTreeSet::new();
+                for (i, rec) in hist.commands.iter().enumerate() {
+                    if rec.version != i as u64 + 1 {
+                        return Err(bad("c07-versions-not-contiguous", "history", format!("e{x}: record #{i} has version {}", rec.version)));
+                    }
+                    let args = &rec.summary.args;
+                    let thread: u8 = args.get("thread").and_then(|s| s.parse().ok()).unwrap_or(255);
+                    let seq: u32 = args.get("seq").and_then(|s| s.parse().ok()).unwrap_or(u32::MAX);
+                    let Some(kind) = processed.get(&(thread, seq)) else {
+                        return Err(bad("c07-history", "unexpected-record", format!("e{x}: record v{} for {thread}/{seq}: its caller was not told that it was processed", rec.version)));
+                    };
+                    if !seen_cmds.insert((thread, seq)) {
+                        return Err(bad("c07-applied-twice", "history", format!("e{x}: command {thread}/{seq} is recorded twice")));
+                    }
+                    match kind {
+                        Kind::Add => model_log.push((thread, seq)),
+                        Kind::Add2 => {
+                            model_log.push((thread, seq));
+                            model_log.push((thread, seq));
+                        }
+                        _ => {}
+                    }
+                }
+                for (k, kind) in &processed {
+                    if !seen_cmds.contains(k) {
+                        return Err(bad("c07-command-lost", if matches!(kind, Kind::Reject) { "rejected" } else { "accepted" }, format!("e{x}: command {kind:?} {}/{} returned to its caller but has no audit record", k.0, k.1)));
+                    }
+                }
+                if fin.log != model_log {
+                    return Err(bad("c07-state-vs-log", "final", format!("e{x}: final state {:?} but the audit log gives {:?}", fin.log, model_log)));
+                }
+                let fresh: AggregateStore<Ledger> = AggregateStore::create(storage, const { Ident::make("ledger") }, false).map_err(|e| bad("c07-load", "fresh-store", e.to_string()))?;
+                let again = fresh.get_latest(&h).map_err(|e| bad("c07-load", "replay", format!("e{x} does not load in a fresh store: {e}")))?;
+                if again.log != fin.log || again.version != fin.version {
+                    return Err(bad("c07-state-vs-log", "replay", format!("e{x}: cached state v{} {:?} but replay gives v{} {:?}", fin.version, fin.log, again.version, again.log)));
+                }
+            }
+        } else {
+            classes.insert("volatile_dropped".into());
+        }
+    }
     // post-save listener saw every accepted state change exactly once per event
     let mut ps = ctx.post_saved.lock().unwrap_or_else(|e| e.into_inner()).clone();
     ps.sort();
@@ -539,11 +661,11 @@ impl Prop for C07 {
             Tier::Quick => 3..25usize,
             Tier::Thorough => 5..60usize,
         };
-        (prop_oneof![1 => Just(true), 1 => Just(false)], any::<bool>(), 1u8..4, 2usize..6, 0u8..3, any::<u64>(), prop_oneof![3 => Just(false), 1 => Just(true)])
-            .prop_flat_map(move |(disk, history_cache, entities, n, readers, yield_seed, second_store)| {
-                (Just(disk), Just(history_cache), Just(entities), vec(vec(step(entities), len.clone()), n), Just(readers), Just(yield_seed), Just(second_store))
+        (prop_oneof![1 => Just(true), 1 => Just(false)], any::<bool>(), 1u8..4, 2usize..6, 0u8..3, any::<u64>(), prop_oneof![3 => Just(false), 1 => Just(true)], prop_oneof![4 => Just(0u8), 2 => Just(1u8), 1 => Just(2u8)])
+            .prop_flat_map(move |(disk, history_cache, entities, n, readers, yield_seed, second_store, volatile)| {
+                (Just(disk), Just(history_cache), Just(entities), vec(vec(step(entities, volatile), len.clone()), n), Just(readers), Just(yield_seed), Just(second_store), Just(volatile))
             })
-            .prop_map(|(disk, history_cache, entities, writers, readers, yield_seed, second_store)| Case { disk, history_cache, entities, writers, readers, yield_seed, second_store })
+            .prop_map(|(disk, history_cache, entities, writers, readers, yield_seed, second_store, volatile)| Case { disk, history_cache, entities, writers, readers, yield_seed, second_store, volatile })
             .boxed()
     }
 
